@@ -47,6 +47,21 @@ type walkCtx struct {
 	where       string
 }
 
+// readVComments returns the texts of the comments of an emitted file, in order.
+func readVComments(src string) []string {
+	_, cs, err := gl.Lex(src)
+	if err != nil {
+		return nil
+	}
+	var out []string
+	for _, c := range cs {
+		t := strings.TrimSpace(c.Text)
+		t = strings.TrimSpace(strings.TrimSuffix(strings.TrimPrefix(t, "(*"), "*)"))
+		out = append(out, t)
+	}
+	return out
+}
+
 func readV(src string) ([]vdef, error) {
 	f, err := gl.ParseFile(src)
 	if err != nil {
